@@ -175,7 +175,7 @@ impl<T> SourceText<T> where T: AsRef<str> {
     /// Returns true if a line break is positioned at the given byte position in
     /// the text.
     pub fn is_line_break(&self, byte: usize) -> bool {
-        debug_assert!(byte > self.offset.byte,
+        debug_assert!(byte >= self.offset.byte,
             "byte is out of source text bounds");
         self.metrics.is_line_break(self.as_str(), byte - self.offset.byte)
     }
